@@ -95,10 +95,13 @@ func (panel *userPanel) TerminateActiveUser(user *ActiveUser, reason string) {
 		"reason": reason,
 	}).Info("Terminating active user")
 	panel.updateUsageQueueForOne(user)
-	user.closeAllSessions(reason)
+	user.terminate(reason)
 	verifhook.Point("panel.Terminate.beforeDelete")
 	panel.activeUsersM.Lock()
-	delete(panel.activeUsers, user.arrUID)
+	// a newer record may have been registered for this UID in the meantime
+	if panel.activeUsers[user.arrUID] == user {
+		delete(panel.activeUsers, user.arrUID)
+	}
 	panel.activeUsersM.Unlock()
 }
 
